@@ -15,9 +15,13 @@ PID = 'C03'
 RULE = ('random compositions over subsets (1-6) of 11 volatile chemicals + gas-locked N2/CO2 + solid/liquid-locked glucose/glycerol, flows 10^U(-3,3), every initial distribution over l/g, specs: '
         'TP, TV, PV, PH, PS, TH, TS, Tx, Ty, Px, Py with T 250-500 K, P 1e4-5e6 Pa, V in {0,1,U(0,1)}, H/S between the V=0.02 and V=0.98 values +-30%; LLE on 2-5 chemicals with a partially miscible pair '
         '(all three methods), SLE with glucose/tetradecanol, vlle; repeated calls on the same stream. only normal returns are judged; documented refusals are counted. '
+        'second family: initial distributions over 2-4 rows (g, l, L, s) followed by 1-3 calls of different kinds (vle / lle / vlle / sle) on the one stream, single-phase Stream receivers (g / l / s), '
+        'separations.lle (efficiency 1, (0,1), 0; multi_stream) and separations.vle(Q=, multi_stream=), placement of locked chemicals after mix_from(vle=True) / receive_vent (energy balance and ideal on / off; corners where a locked '
+        'chemical\'s vapour pressure crosses P), x / y on packages with zero-flow and locked members incl. x = z, VLE method shgo, LLE call forms (P, single_loop, use_cache, update=False), three-phase vlle at 1e-3..1e3, '
+        'second call after the feed changed (rows scaled, a chemical removed / added). '
         'non-trivial = two non-empty phases after the call, or a locked chemical present; distinct = hash of the case')
 MIN_NONTRIVIAL = {'quick': 300, 'thorough': 8000}
-ASSUMPTIONS = ['only calls that return normally are judged (the quantifier of C03)', 'column sums are compared with relative 1e-12 of the column and absolute 1e-12 of the total flow']
+ASSUMPTIONS = ['only calls that return normally are judged (the quantifier of C03)', 'on streams with more rows than the call distributes (material in L / s during vle) the placement of locked chemicals is judged within the rows the call pools (g + l); balance and sign over all rows', 'column sums are compared with relative 1e-12 of the column and absolute 1e-12 of the total flow']
 VOL = ('Water', 'Ethanol', 'Methanol', 'Propanol', 'Butanol', 'Hexane', 'Heptane', 'Octane', 'Benzene', 'Toluene', 'Acetone')
 REFUSALS = ('InfeasibleRegion', 'NoEquilibrium', 'DomainError', 'UndefinedPhase', 'NotImplementedError')
 
@@ -27,7 +31,11 @@ _thermo = {}
 
 def required(tier):
     return ['vle:TP', 'vle:TV', 'vle:PV', 'vle:PH', 'vle:PS', 'vle:TH', 'vle:TS', 'vle:Px', 'vle:Tx', 'vle:Py', 'vle:Ty', 'lle', 'sle', 'vlle', 'via:mix_from', 'via:separations.vle', 'via:receive_vent',
-            'locked:gas', 'locked:heavy', 'locked-only', 'locked:misplaced', 'single-component', 'repeated-call']
+            'locked:gas', 'locked:heavy', 'locked-only', 'locked:misplaced', 'single-component', 'repeated-call',
+            # second family (coverage audit)
+            'dist:material-in-L-or-s', 'seq:cross-kind', 'seq:vle-on-3+phases', 'seq:vlle-with-L', 'stream:vle', 'stream:vlle', 'stream:lle', 'stream:sle', 'via:separations.lle', 'separations.lle:efficiency<1',
+            'separations.lle:efficiency=0', 'separations.lle:multi_stream', 'via:separations.vle(Q)', 'separations.vle:multi_stream', 'via-locked:mix_from', 'via-locked:receive_vent', 'xy:extra-package-members',
+            'xy:at-feed-composition', 'vle:method=shgo', 'lle:single_loop', 'lle:update=False', 'lle:P', 'lle:use_cache=False', 'vlle:three-phase', 'repeated-call:changed-feed', 'repeated-call:chemical-set-changed']
 
 
 def chem(i):
@@ -179,6 +187,7 @@ def vle_spec(case, s):
 
 
 def run_case(case, rec):
+    if case['t'] in NEW_KINDS: return run_case2(case, rec)
     rec.begin_case(case)
     t = case['t']
     with warnings.catch_warnings():
@@ -322,6 +331,417 @@ def run_case(case, rec):
             judge(rec, 'sle', 'sle', before, array_of(s), s, case, locked_check=False)
 
 
+# ---------------------------------------------------------------------------------------------------------------------
+# second family of cases (coverage audit): initial distributions over L / s rows, cross-kind call sequences, single-phase
+# Stream receivers, separations.lle / separations.vle(Q=, multi_stream=), locked placement on the 'via' paths, x / y with
+# zero-flow and locked package members, the 'shgo' VLE method, LLE call forms, three-phase vlle, changed feed between calls
+
+NEW_KINDS = ('seq', 'stream', 'seplle', 'sepvle', 'vialocked', 'xyplus', 'shgo', 'llekw', 'vlle3', 'repeat2')
+PHASE_SETS = ('gl', 'Lgl', 'gls', 'Ll', 'ls', 'Lgls')
+PAIRS_NOXY = ('TP', 'TP', 'TV', 'PV', 'PH', 'PS', 'TH', 'TS')
+LLE_BASE = (('Water', 'Octane'), ('Water', 'Butanol'), ('Water', 'Hexane'), ('Water', 'Toluene'), ('Water', 'Octanol'))
+
+
+def _flows(rng, ids, lo=-3, hi=3, pzero=0.1):
+    f = [round(10 ** rng.uniform(lo, hi), 5) if rng.random() >= pzero else 0.0 for _ in ids]
+    if not any(f): f[0] = 1.0
+    return f
+
+
+def _vspec(rng, pairs=PAIRS_NOXY):
+    return {'pair': rng.choice(pairs), 'T': round(rng.uniform(250, 500), 2), 'P': round(10 ** rng.uniform(4, 6.7), 1),
+            'V': rng.choice([0.0, 1.0, round(rng.random(), 4), round(rng.random(), 4)]), 'f': round(rng.uniform(-0.3, 1.3), 4)}
+
+
+def _mixed_ids(rng, nmin=1, nmax=4, plock=0.5):
+    ids = rng.sample(VOL, rng.randrange(nmin, nmax + 1))
+    if rng.random() < plock: ids.append(rng.choice(['N2', 'CO2']))
+    if rng.random() < plock: ids.append(rng.choice(['Glucose', 'Glycerol']))
+    return ids
+
+
+def gen_case2(rng):
+    t = rng.choices(NEW_KINDS, [5, 4, 2, 2, 3, 2, 1, 2.5, 2, 3])[0]
+    c = {'t': t}
+    if t == 'seq':
+        # any initial distribution over the rows of a 2-4 phase stream, then 1-3 equilibrium calls of different kinds on that one stream
+        ids = _mixed_ids(rng, 2, 4, 0.4)
+        ph = rng.choice(PHASE_SETS)
+        c.update(ids=ids, phases=ph, flows=_flows(rng, ids), T=round(rng.uniform(280, 400), 2), P=round(10 ** rng.uniform(4, 6), 1))
+        c['w'] = [[rng.choice([0.0, 0.0, 1.0, round(rng.random(), 3)]) for _ in ph] for _ in ids]      # weights of each chemical over the rows
+        steps = []
+        for _ in range(rng.randrange(1, 4)):
+            op = rng.choice(['vle', 'vle', 'lle', 'vlle', 'sle'])
+            if op == 'vle': st = {'op': 'vle', **_vspec(rng)}
+            elif op == 'lle': st = {'op': 'lle', 'T': round(rng.uniform(285, 355), 2), 'top': rng.choice([None] + ids)}
+            elif op == 'vlle': st = {'op': 'vlle', 'T': round(rng.uniform(300, 420), 2), 'P': round(10 ** rng.uniform(4.5, 5.5), 1)}
+            else: st = {'op': 'sle', 'solute': rng.choice([i for i in ids if i in VOL]), 'T': round(rng.uniform(250, 450), 2), 'sol': rng.choice([None, round(rng.random(), 4)])}
+            steps.append(st)
+        c['steps'] = steps
+    elif t == 'stream':
+        ids = _mixed_ids(rng, 1, 4, 0.3)
+        c.update(ids=ids, flows=_flows(rng, ids), phase=rng.choice('gls'), T=round(rng.uniform(280, 400), 2), P=round(10 ** rng.uniform(4, 6), 1))
+        op = rng.choice(['vle', 'vle', 'vle', 'vlle', 'lle', 'sle'])
+        if op == 'vle': c['step'] = {'op': 'vle', **_vspec(rng)}
+        elif op == 'vlle': c['step'] = {'op': 'vlle', 'T': round(rng.uniform(300, 420), 2), 'P': round(10 ** rng.uniform(4.5, 5.5), 1)}
+        elif op == 'lle': c['step'] = {'op': 'lle', 'T': round(rng.uniform(285, 355), 2), 'top': rng.choice([None] + ids)}
+        else: c['step'] = {'op': 'sle', 'solute': rng.choice([i for i in ids if i in VOL]), 'T': round(rng.uniform(250, 450), 2), 'sol': rng.choice([None, round(rng.random(), 4)])}
+    elif t == 'seplle':
+        base = rng.choice(LLE_BASE)
+        extra = rng.sample([i for i in ('Ethanol', 'Methanol', 'Acetone', 'Propanol', 'Heptane') if i not in base], rng.randrange(0, 3))
+        ids = list(base) + extra
+        c.update(ids=ids, flows=_flows(rng, ids, -2, 3, 0.05), T=round(rng.uniform(285, 355), 2), eff=rng.choice([1.0, 0.0, round(rng.random(), 4), round(rng.random(), 4)]),
+                 top=rng.choice([None] + ids), ms=rng.random() < 0.5)
+    elif t == 'sepvle':
+        ids = _mixed_ids(rng, 1, 4, 0.3)
+        c.update(ids=ids, flows=_flows(rng, ids), dist=[rng.choice([0.0, 1.0, round(rng.random(), 3)]) for _ in ids], misplaced=rng.random() < 0.5,
+                 fix=rng.choice('PPT'), T=round(rng.uniform(280, 450), 2), P=round(10 ** rng.uniform(4, 6.3), 1), f=round(rng.uniform(-0.3, 1.3), 4), ms=rng.random() < 0.5)
+    elif t == 'vialocked':
+        ids = _mixed_ids(rng, 1, 4, 0.0)
+        ids.append(rng.choice(['N2', 'CO2']) if rng.random() < 0.6 else rng.choice(['Glucose', 'Glycerol']))
+        if rng.random() < 0.4: ids.append(rng.choice([i for i in ('N2', 'CO2', 'Glucose', 'Glycerol') if i not in ids]))
+        c.update(ids=ids, flows=_flows(rng, ids, -3, 3, 0.0), dist=[rng.choice([0.0, 1.0, round(rng.random(), 3)]) for _ in ids], misplaced=rng.random() < 0.5,
+                 how=rng.choice(['mix_from', 'receive_vent', 'receive_vent']), eb=rng.random() < 0.5, ideal=rng.random() < 0.5,
+                 T=round(rng.uniform(280, 420), 2), P=round(10 ** rng.uniform(4, 6.3), 1))
+        # corners of the quantifier's T / P box where a locked chemical's own vapour pressure crosses P (CO2 below its critical point at high P; glycerol near 500 K at low P)
+        r = rng.random()
+        if r < 0.2:
+            c['ids'] = [i for i in ids if i != 'CO2'] + ['CO2']; c['T'] = round(rng.uniform(250, 300), 2); c['P'] = round(10 ** rng.uniform(6.3, 6.7), 1); c['corner'] = 'cold-high-P'
+        elif r < 0.3:
+            c['ids'] = [i for i in ids if i != 'Glycerol'] + ['Glycerol']; c['T'] = round(rng.uniform(470, 500), 2); c['P'] = round(10 ** rng.uniform(4, 4.25), 1); c['corner'] = 'hot-low-P'
+        if 'corner' in c:
+            c['flows'] = _flows(rng, c['ids'], -3, 3, 0.0); c['dist'] = [rng.choice([0.0, 1.0, round(rng.random(), 3)]) for _ in c['ids']]
+    elif t == 'xyplus':
+        # two volatile chemicals with flow; the package also holds zero-flow volatiles and (with or without flow) phase-locked chemicals
+        two = rng.sample(VOL, 2)
+        zero = rng.sample([i for i in VOL if i not in two], rng.randrange(0, 3))
+        lock = rng.sample(['N2', 'CO2', 'Glucose', 'Glycerol'], rng.randrange(0, 3))
+        order = two + zero + lock
+        perm = list(range(len(order))); rng.shuffle(perm)
+        ids = [order[k] for k in perm]
+        fl = {two[0]: round(10 ** rng.uniform(-1, 2), 4), two[1]: round(10 ** rng.uniform(-1, 2), 4)}
+        for i in lock: fl[i] = rng.choice([0.0, 0.0, round(10 ** rng.uniform(-3, 0), 5)])
+        c.update(ids=ids, two=two, flows=[fl.get(i, 0.0) for i in ids], dist=[round(rng.random(), 3) for _ in ids], pair=rng.choice(['Tx', 'Ty', 'Px', 'Py']),
+                 T=round(rng.uniform(300, 420), 2), P=round(10 ** rng.uniform(4.3, 6), 1), at=rng.choice(['z', 'z', 'near', 'near', 'far']), xy=round(rng.uniform(0.02, 0.98), 4))
+    elif t == 'shgo':
+        ids = rng.sample(VOL, rng.choice([2, 2, 3]))
+        if rng.random() < 0.3: ids.append(rng.choice(['N2', 'Glucose']))
+        c.update(ids=ids, flows=_flows(rng, ids, -3, 3, 0.0), dist=[rng.choice([0.0, 1.0, round(rng.random(), 3)]) for _ in ids], **_vspec(rng, ('TP', 'TP', 'TV', 'PV')))
+    elif t == 'llekw':
+        base = rng.choice(LLE_BASE)
+        extra = rng.sample([i for i in ('Ethanol', 'Methanol', 'Acetone', 'Propanol', 'Heptane') if i not in base], rng.randrange(0, 3))
+        lock = rng.sample(['N2', 'Glucose', 'Glycerol'], rng.randrange(0, 2))
+        ids = list(base) + extra + lock
+        ph = rng.choice(['Ll', 'Ll', 'Lgl', 'Lls'])
+        c.update(ids=ids, phases=ph, flows=_flows(rng, ids, -2, 3, 0.15), T=round(rng.uniform(285, 355), 2), w=[[rng.choice([0.0, 1.0, round(rng.random(), 3)]) for _ in ph] for _ in ids],
+                 method=rng.choice(['pseudo equilibrium', 'pseudo equilibrium', 'pseudo equilibrium', 'shgo']), top=rng.choice([None] + ids),
+                 kw={'P': rng.choice([None, round(10 ** rng.uniform(4, 6), 1)]), 'single_loop': rng.random() < 0.4, 'use_cache': rng.random() < 0.5, 'update': rng.random() < 0.7},
+                 again=rng.random() < 0.5)
+    elif t == 'vlle3':
+        # water + partially miscible organics around the heteroazeotrope: the three-phase branch of Stream.vlle (fixed point on normalised data, rescaled afterwards)
+        org = rng.sample(['Butanol', 'Hexane', 'Heptane', 'Octane', 'Benzene', 'Toluene'], rng.choice([1, 2, 2]))
+        ids = ['Water'] + org + rng.sample(['Propanol', 'Ethanol', 'N2', 'Glucose'], rng.choice([0, 0, 1]))
+        scale = rng.choice([1e-3, 1.0, 1.0, 1e3])
+        c.update(ids=ids, flows=[round(scale * rng.uniform(0.2, 1), 8) for _ in ids], T=round(rng.uniform(330, 372), 2), P=round(101325 * rng.uniform(0.8, 1.25), 1),
+                 phases=rng.choice(['gl', 'Lgl', 'S']), w=[[rng.choice([0.0, 1.0, round(rng.random(), 3)]) for _ in range(3)] for _ in ids], again=rng.random() < 0.4)
+    else:   # repeat2
+        ids = _mixed_ids(rng, 2, 5, 0.3)
+        c.update(ids=ids, flows=_flows(rng, ids, -3, 3, 0.25), dist=[rng.choice([0.0, 1.0, round(rng.random(), 3)]) for _ in ids], misplaced=rng.random() < 0.5,
+                 first=_vspec(rng), second=_vspec(rng),
+                 # between the calls: every row scaled, one chemical removed, one that was absent added
+                 mult=[[rng.choice([1.0, round(10 ** rng.uniform(-2, 2), 4)]) for _ in ids] for _ in 'gl'], drop=rng.choice([None] + list(range(len(ids)))),
+                 add=[rng.choice([0.0, round(10 ** rng.uniform(-3, 3), 5)]) for _ in ids])
+    return c
+
+
+def arr2(s):
+    """phase x chemical array and phase names of a Stream or MultiStream"""
+    if isinstance(s, tmo.MultiStream): return array_of(s)
+    return np.array([s.imol.data.to_array()]), (s.phase,)
+
+
+def judge2(rec, clause, tag, before, after, chemicals, case, pool=None, feed_total=None):
+    """balance over all rows, signs, and (pool = names of the rows the call distributes) the placement of phase-locked chemicals within that pool"""
+    b, bph = before; a, aph = after
+    tot_b = b.sum(0) if feed_total is None else feed_total; tot_a = a.sum(0)
+    F = tot_b.sum()
+    bad = np.abs(tot_a - tot_b) > 1e-12 * np.maximum(np.abs(tot_a), np.abs(tot_b)) + 1e-12 * F
+    worst = float((np.abs(tot_a - tot_b) / max(F, 1e-300)).max())
+    ids = [c.ID for c in chemicals]
+    rec.check(not bad.any(), clause, f'balance/{tag}', f'{tag}: per-chemical totals changed: ' + ', '.join(f'{ids[i]}: {tot_b[i]!r} -> {tot_a[i]!r}' for i in np.where(bad)[0][:4]) + f' (rows {bph} -> {aph})', residual=worst)
+    neg = [(aph[r], ids[j], float(a[r, j])) for r, j in zip(*np.where(a < 0))]
+    rec.check(not neg, clause, f'negative/{tag}', f'{tag}: negative phase flows after a normal return: {neg[:4]}')
+    if pool:
+        gi = aph.index('g') if 'g' in aph else None
+        rows_ = [r for r, p in enumerate(aph) if p in pool]
+        for j, c in enumerate(chemicals):
+            ls = c.locked_state
+            pooled = float(sum(a[r, j] for r in rows_))
+            if ls == 'g' and pooled > 0:
+                rec.hit('locked:gas')
+                rec.check(gi is not None and a[gi, j] == pooled, clause, f'gas-locked/{tag}', f'{tag}: gas-only chemical {c.ID} not entirely in the gas phase: ' + str({p: float(a[r, j]) for r, p in enumerate(aph)}))
+            elif ls in ('l', 's') and pooled > 0:
+                rec.hit('locked:heavy')
+                rec.check(gi is None or a[gi, j] == 0, clause, f'heavy-locked/{tag}', f'{tag}: {ls}-only chemical {c.ID} appears in the gas phase: {float(a[gi, j]) if gi is not None else 0}')
+    if sum(1 for r in a if r.sum() > 0) >= 2 or (pool and any(c.locked_state for j, c in enumerate(chemicals) if tot_a[j] > 0)): rec.mark_nontrivial(case_hash(case))
+
+
+def build_rows(case, th, ph):
+    s = tmo.MultiStream(None, phases=tuple(ph), T=case['T'], P=case.get('P', 101325.), thermo=th)
+    for i, v, w in zip(case['ids'], case['flows'], case['w']):
+        if not v: continue
+        w = list(w[:len(ph)]); tot = sum(w)
+        if not tot: w = [1.0] + [0.0] * (len(ph) - 1); tot = 1.0
+        for p, x in zip(ph, w):
+            if x: s.imol[p, i] = v * x / tot
+    return s
+
+
+def vle_kwargs(st, s):
+    pair = st['pair']; T, P, V = st['T'], st['P'], st['V']
+    if pair == 'TP': return {'T': T, 'P': P}
+    if pair == 'TV': return {'T': T, 'V': V}
+    if pair == 'PV': return {'P': P, 'V': V}
+    fixed = {'P': P} if pair[0] == 'P' else {'T': T}
+    probe = s.copy()
+    probe.vle(V=0.02, **fixed); lo = probe.H if pair[1] == 'H' else probe.S
+    probe.vle(V=0.98, **fixed); hi = probe.H if pair[1] == 'H' else probe.S
+    return {**fixed, pair[1]: lo + st['f'] * (hi - lo)}
+
+
+def do_step(rec, st, s, chemicals, case, where):
+    """one equilibrium call on s (Stream or MultiStream); returns False when the call did not return normally"""
+    op = st['op']
+    tag = f'{where}/{op}' + (':' + st['pair'] if op == 'vle' else '')
+    try:
+        if op == 'vle':
+            kw = vle_kwargs(st, s)
+            before = arr2(s); s.vle(**kw); pool = 'gl'
+        elif op == 'lle':
+            before = arr2(s); s.lle(st['T'], top_chemical=st['top']); pool = None
+        elif op == 'vlle':
+            before = arr2(s); s.vlle(st['T'], st['P']); pool = 'Lgl'
+        else:
+            before = arr2(s)
+            s.sle(st['solute'], T=st['T'], **({'solubility': st['sol']} if st['sol'] is not None else {})); pool = None
+    except Exception as e:
+        if refused(e) or isinstance(e, AssertionError): rec.refuse(f'{tag}: {type(e).__name__}'); return False
+        rec.exception(where, e, what=f'{tag} on {case["ids"]} raised {type(e).__name__}: {str(e)[:140]}'); return False
+    rec.hit(f'{where}:{op}')
+    judge2(rec, where, tag, before, arr2(s), chemicals, case, pool=pool)
+    e = stream_invariant(s)
+    rec.check(e is None, 'invariant', tag, f'sparse invariant after {tag}: {e}')
+    return True
+
+
+def run_case2(case, rec):
+    rec.begin_case(case)
+    t = case['t']
+    with warnings.catch_warnings():
+        warnings.simplefilter('ignore')
+        try:
+            th = thermo(case['ids'])
+        except Exception as e:
+            rec.exception('setup', e, what=f'building thermo for {case["ids"]} raised {type(e).__name__}: {e}'); return
+        tmo.settings.set_thermo(th)
+        chemicals = tuple(th.chemicals)
+        if t == 'seq':
+            s = build_rows(case, th, case['phases'])
+            start_rows = {p for p, r in zip(s.phases, array_of(s)[0]) if r.sum() > 0}
+            if start_rows - {'g', 'l'}: rec.hit('dist:material-in-L-or-s')
+            done = []
+            for st in case['steps']:
+                if not do_step(rec, st, s, chemicals, case, 'seq'): break
+                done.append(st['op'])
+                if len(done) >= 2 and done[-1] != done[-2]: rec.hit('seq:cross-kind')
+                if st['op'] == 'vle' and len(s.phases) > 2: rec.hit('seq:vle-on-3+phases')
+                if st['op'] == 'vlle' and 'L' in start_rows: rec.hit('seq:vlle-with-L')
+        elif t == 'stream':
+            s = tmo.Stream(None, phase=case['phase'], T=case['T'], P=case['P'], thermo=th)
+            for i, v in zip(case['ids'], case['flows']):
+                if v: s.imol[i] = v
+            if do_step(rec, case['step'], s, chemicals, case, 'stream'):
+                rec.hit('stream:' + case['phase'])
+        elif t == 'seplle':
+            feed = tmo.Stream(None, phase='l', T=case['T'], thermo=th)
+            for i, v in zip(case['ids'], case['flows']):
+                if v: feed.imol[i] = v
+            top = tmo.Stream(None, thermo=th); bottom = tmo.Stream(None, thermo=th)
+            ms = tmo.MultiStream(None, phases=('L', 'l'), thermo=th) if case['ms'] else None
+            before = arr2(feed)
+            eff = case['eff']; etag = 'efficiency=1' if eff == 1 else ('efficiency=0' if eff == 0 else 'efficiency<1')
+            try:
+                sep.lle(feed, top, bottom, top_chemical=case['top'], efficiency=eff, multi_stream=ms)
+            except Exception as e:
+                if refused(e): rec.refuse(f'separations.lle: {type(e).__name__}'); return
+                rec.exception('via', e, what=f'separations.lle on {case["ids"]} raised {type(e).__name__}: {str(e)[:140]}'); return
+            rec.hit('via:separations.lle'); rec.hit('separations.lle:' + etag)
+            rec.check(np.array_equal(arr2(feed)[0], before[0]), 'via', 'separations.lle/feed-changed', 'separations.lle changed the feed')
+            after = (np.array([top.imol.data.to_array(), bottom.imol.data.to_array()]), ('top', 'bottom'))
+            judge2(rec, 'via', f'separations.lle/{etag}', before, after, chemicals, case)
+            if ms is not None:
+                rec.hit('separations.lle:multi_stream')
+                judge2(rec, 'via', 'separations.lle/multi_stream', before, arr2(ms), chemicals, case)
+        elif t == 'sepvle':
+            feed = make_stream(case, th)
+            vap = tmo.Stream(None, thermo=th); liq = tmo.Stream(None, thermo=th)
+            ms = tmo.MultiStream(None, phases=('g', 'l'), thermo=th) if case['ms'] else None
+            fixed = {'P': case['P']} if case['fix'] == 'P' else {'T': case['T']}
+            try:
+                probe = feed.copy()
+                probe.vle(V=0.02, **fixed); lo = probe.H
+                probe.vle(V=0.98, **fixed); hi = probe.H
+                Q = lo + case['f'] * (hi - lo) - feed.H
+                before = arr2(feed)
+                sep.vle(feed, vap, liq, Q=Q, multi_stream=ms, **fixed)
+            except Exception as e:
+                if refused(e) or isinstance(e, AssertionError): rec.refuse(f'separations.vle(Q): {type(e).__name__}'); return
+                rec.exception('via', e, what=f'separations.vle({fixed}, Q=...) on {case["ids"]} raised {type(e).__name__}: {str(e)[:140]}'); return
+            rec.hit('via:separations.vle(Q)')
+            rec.check(np.array_equal(arr2(feed)[0], before[0]), 'via', 'separations.vle(Q)/feed-changed', 'separations.vle changed the feed')
+            after = (np.array([vap.imol.data.to_array(), liq.imol.data.to_array()]), ('g', 'l'))
+            tag = f'separations.vle/{case["fix"]}Q'
+            judge2(rec, 'via', tag, before, after, chemicals, case, pool='gl')
+            if ms is not None:
+                rec.hit('separations.vle:multi_stream')
+                judge2(rec, 'via', tag + '/multi_stream', before, arr2(ms), chemicals, case, pool='gl')
+        elif t == 'vialocked':
+            s = make_stream(case, th); arr = array_of(s)[0]          # rows g, l
+            how = case['how']
+            try:
+                if how == 'mix_from':
+                    a_ = tmo.Stream(None, thermo=th, T=case['T'], P=case['P'], phase='l'); b_ = tmo.Stream(None, thermo=th, T=min(case['T'] + 40, 500), P=case['P'], phase='g')
+                    for j, i in enumerate(th.chemicals.IDs):
+                        if arr[1, j]: a_.imol[i] = arr[1, j]
+                        if arr[0, j]: b_.imol[i] = arr[0, j]
+                    if a_.isempty() or b_.isempty(): rec.refuse('one inlet empty'); return
+                    recv = tmo.MultiStream(None, phases=('g', 'l'), thermo=th)
+                    recv.mix_from([a_, b_], energy_balance=case['eb'], vle=True)
+                    after = arr2(recv); tag = 'mix_from(vle=True)'; rec.hit('mix_from(vle=True):energy_balance=' + str(case['eb']))
+                else:
+                    liq = tmo.Stream(None, thermo=th, T=case['T'], P=case['P'], phase='l'); vent = tmo.Stream(None, thermo=th, T=case['T'], P=case['P'], phase='g')
+                    for j, i in enumerate(th.chemicals.IDs):
+                        if arr[1, j]: liq.imol[i] = arr[1, j]
+                        if arr[0, j]: vent.imol[i] = arr[0, j]
+                    if liq.isempty() or vent.isempty(): rec.refuse('one side empty'); return
+                    vent.receive_vent(liq, energy_balance=case['eb'], ideal=case['ideal'])
+                    if vent.phase != 'g' or liq.phase != 'l': rec.refuse('receive_vent: outlet phases relabelled'); return
+                    after = (np.array([vent.imol.data.to_array(), liq.imol.data.to_array()]), ('g', 'l'))
+                    tag = 'receive_vent'; rec.hit(f'receive_vent:energy_balance={case["eb"]}/ideal={case["ideal"]}')
+            except Exception as e:
+                if refused(e) or isinstance(e, AssertionError): rec.refuse(f'{how}: {type(e).__name__}'); return
+                rec.exception('via', e, what=f'{how} on {case["ids"]} raised {type(e).__name__}: {str(e)[:140]}'); return
+            rec.hit('via-locked:' + how)
+            if case.get('corner'): rec.hit('via-locked:' + case['corner'])
+            judge2(rec, 'via-locked', tag, (arr, ('g', 'l')), after, chemicals, case, pool='gl')
+        elif t == 'xyplus':
+            s = make_stream(case, th)
+            two = case['two']; fa, fb = (case['flows'][case['ids'].index(i)] for i in two)
+            zA = fa / (fa + fb)
+            if case['at'] == 'z': v = zA                                         # the lever rule at its end point: the named phase is the whole mixture
+            elif case['at'] == 'near': v = min(max(zA * (0.6 + 0.8 * case['xy']), 0.01), 0.99)
+            else: v = case['xy']
+            # the composition is given over the chemicals in equilibrium in package order
+            comp = [v, 1 - v] if case['ids'].index(two[0]) < case['ids'].index(two[1]) else [1 - v, v]
+            pair = case['pair']
+            kw = {('T' if pair[0] == 'T' else 'P'): case[pair[0]], pair[1]: comp}
+            before = arr2(s)
+            locked_flow = any(v_ and chem(i).locked_state for i, v_ in zip(case['ids'], case['flows']))
+            try:
+                s.vle(**kw)
+            except Exception as e:
+                if refused(e) or isinstance(e, AssertionError): rec.refuse(f'vle:{pair} (package with extra members): {type(e).__name__}'); return
+                rec.exception('vle:' + pair, e, what=f'vle({kw}) on {case["ids"]} raised {type(e).__name__}: {str(e)[:140]}'); return
+            rec.hit('xy:extra-package-members')
+            if case['at'] == 'z': rec.hit('xy:at-feed-composition')
+            if locked_flow: rec.hit('xy:with-locked-flow')
+            judge2(rec, 'vle:' + pair, f'vle:{pair}/extra-package-members', before, arr2(s), chemicals, case, pool='gl')
+        elif t == 'shgo':
+            s = make_stream(case, th)
+            before = arr2(s)
+            try:
+                kw = vle_kwargs(case, s)
+                vle = s.vle; vle.method = 'shgo'
+                vle(**kw)
+            except Exception as e:
+                if refused(e) or isinstance(e, AssertionError): rec.refuse(f'vle(shgo):{case["pair"]}: {type(e).__name__}'); return
+                rec.exception('vle-shgo', e, what=f'vle(method=shgo, {case["pair"]}) on {case["ids"]} raised {type(e).__name__}: {str(e)[:140]}'); return
+            rec.hit('vle:method=shgo')
+            judge2(rec, 'vle-shgo', f'vle:{case["pair"]}/method=shgo', before, arr2(s), chemicals, case, pool='gl')
+        elif t == 'llekw':
+            s = build_rows(case, th, case['phases'])
+            kw = dict(case['kw'])
+            tag = 'lle/' + case['method'] + ''.join(f'/{k}' for k in ('single_loop',) if kw[k]) + ('/P' if kw['P'] else '') + ('' if kw['use_cache'] else '/no-cache') + ('' if kw['update'] else '/update=False')
+            before = arr2(s)
+            try:
+                lle = s.lle; lle.method = case['method']
+                if case['again']: lle(case['T'] + 9.0, top_chemical=case['top'])       # a remembered solution for the call forms to start from
+                b2 = arr2(s)
+                ret = lle(case['T'], top_chemical=case['top'], **kw)
+            except Exception as e:
+                if refused(e): rec.refuse(f'lle call form: {type(e).__name__}'); return
+                rec.exception('lle', e, what=f'{tag} on {case["ids"]} raised {type(e).__name__}: {str(e)[:140]}'); return
+            rec.hit('lle:call-forms')
+            for k in ('single_loop', 'P'):
+                if kw[k]: rec.hit('lle:' + k)
+            if not kw['update']: rec.hit('lle:update=False')
+            if not kw['use_cache']: rec.hit('lle:use_cache=False')
+            if any(v == 0 for v in case['flows']): rec.hit('lle:zero-flow-member')
+            judge2(rec, 'lle', tag, b2, arr2(s), chemicals, case)
+            judge2(rec, 'lle', tag + '/from-start', before, arr2(s), chemicals, case)
+        elif t == 'vlle3':
+            if case['phases'] == 'S':
+                s = tmo.Stream(None, phase='l', T=case['T'], P=case['P'], thermo=th)
+                for i, v in zip(case['ids'], case['flows']): s.imol[i] = v
+            else:
+                c2 = dict(case, w=[w[:len(case['phases'])] for w in case['w']])
+                s = build_rows(c2, th, case['phases'])
+            before = arr2(s)
+            n = 2 if case['again'] else 1
+            for k in range(n):
+                b = arr2(s)
+                try:
+                    s.vlle(case['T'] + 1.5 * k, case['P'])
+                except Exception as e:
+                    if refused(e): rec.refuse(f'vlle: {type(e).__name__}'); return
+                    rec.exception('vlle', e, what=f'vlle on {case["ids"]} raised {type(e).__name__}: {str(e)[:140]}'); return
+                a = arr2(s)
+                nz = sum(1 for r in a[0] if r.sum() > 0)
+                rec.hit('vlle')
+                if nz == 3: rec.hit('vlle:three-phase')
+                if k: rec.hit('vlle:repeated')
+                judge2(rec, 'vlle', 'vlle/' + ('three-phase' if nz == 3 else 'fewer-phases') + ('/repeated' if k else ''), b, a, chemicals, case, pool='Lgl')
+        elif t == 'repeat2':
+            s = make_stream(case, th)
+            try:
+                kw = vle_kwargs(case['first'], s)
+                s.vle(**kw)
+            except Exception as e:
+                if refused(e) or isinstance(e, AssertionError): rec.refuse(f'first call: {type(e).__name__}'); return
+                rec.exception('repeated-call', e, what=f'first vle call raised {type(e).__name__}: {str(e)[:120]}'); return
+            # the feed changes between the calls on the same stream (and therefore the same remembered solver)
+            a0 = array_of(s)[0]
+            ids = th.chemicals.IDs
+            for r, p in enumerate(s.phases):
+                for j, i in enumerate(ids):
+                    v = a0[r, j] * case['mult'][r][j]
+                    if case['drop'] == j: v = 0.0
+                    if p == 'l' and a0[:, j].sum() == 0 and case['add'][j] and case['drop'] != j: v = case['add'][j]
+                    s.imol[p, i] = v
+            if not array_of(s)[0].any(): rec.refuse('nothing left after the change'); return
+            present0 = a0.sum(0) > 0; present1 = array_of(s)[0].sum(0) > 0
+            try:
+                kw = vle_kwargs(case['second'], s)
+                before = arr2(s)
+                s.vle(**kw)
+            except Exception as e:
+                if refused(e) or isinstance(e, AssertionError): rec.refuse(f'second call: {type(e).__name__}'); return
+                rec.exception('repeated-call', e, what=f'second vle call raised {type(e).__name__}: {str(e)[:120]}'); return
+            rec.hit('repeated-call:changed-feed')
+            if (present0 != present1).any(): rec.hit('repeated-call:chemical-set-changed')
+            else: rec.hit('repeated-call:same-chemical-set')
+            judge2(rec, 'repeated-call', f'changed-feed/vle:{case["second"]["pair"]}', before, arr2(s), chemicals, case, pool='gl')
+
 def replay(case, rec):
     run_case(case, rec)
 
@@ -330,6 +750,15 @@ def run(rec, rng, tier, shard, nshards):
     n = 260 if tier == 'quick' else 4000
     for i in range(n):
         case = gen_case(rng)
+        try:
+            run_case(case, rec)
+        except Exception as e:
+            rec.exception('harness', e, what=f'harness error: {type(e).__name__}: {e}')
+        if i % 67 == 0: rec.sample(case)
+    # second family of cases (coverage audit): other initial distributions, receivers, call forms and histories
+    n2 = 300 if tier == 'quick' else 4500
+    for i in range(n2):
+        case = gen_case2(rng)
         try:
             run_case(case, rec)
         except Exception as e:
